@@ -93,12 +93,16 @@ func streamC05(env *runEnv) {
 	idp := newFakeIdP()
 	defer idp.close()
 	users := map[string]string{"1": "pw1", "2": "pw2", "bas:ic": "p:w"}
-	type mech struct{ openid, kerberos, local, ntlm bool }
+	type mech struct {
+		openid, kerberos, local, ntlm bool
+		alias bool // the local mechanism spelled "basic"
+	}
 	subsets := []mech{
-		{false, false, true, false}, {false, false, false, true}, {false, true, false, false},
-		{true, false, true, false}, {true, false, false, true}, {true, true, false, false},
-		{false, false, true, true}, {false, true, true, false}, {true, false, true, true}, {true, true, true, false},
-		{true, false, false, false}, {false, false, false, false},
+		{false, false, true, false, false}, {false, false, false, true, false}, {false, true, false, false, false},
+		{true, false, true, false, false}, {true, false, false, true, false}, {true, true, false, false, false},
+		{false, false, true, true, false}, {false, true, true, false, false}, {true, false, true, true, false}, {true, true, true, false, false},
+		{true, false, false, false, false}, {false, false, false, false, false},
+		{openid: true, local: true, alias: true}, {local: true, alias: true},
 	}
 	be := func(u, p string) string { return "Basic " + base64.StdEncoding.EncodeToString([]byte(u+":"+p)) }
 	for si, m := range subsets {
@@ -114,7 +118,11 @@ func streamC05(env *runEnv) {
 			gc.auth = append(gc.auth, "kerberos")
 		}
 		if m.local {
-			gc.auth = append(gc.auth, "local")
+			if m.alias {
+				gc.auth = append(gc.auth, "basic")
+			} else {
+				gc.auth = append(gc.auth, "local")
+			}
 		}
 		if m.ntlm {
 			gc.auth = append(gc.auth, "ntlm")
